@@ -18,9 +18,10 @@ theorem ext_getD {l₁ l₂ : List α} (hlen : l₁.length = l₂.length)
 
 theorem getD_append' (l₁ l₂ : List α) (k : Nat) (d : α) :
     (l₁ ++ l₂).getD k d = if k < l₁.length then l₁.getD k d else l₂.getD (k - l₁.length) d := by
+  simp only [List.getD_eq_getElem?_getD]
   by_cases h : k < l₁.length
-  · rw [if_pos h, List.getD_append _ _ _ _ h]
-  · rw [if_neg h, List.getD_append_right _ _ _ _ (by omega)]
+  · rw [if_pos h, List.getElem?_append_left h]
+  · rw [if_neg h, List.getElem?_append_right (by omega)]
 
 /-- `lagCore` over a concatenated inflow = `lagCore` over the first part, then over the second part from the buffer
 the first part left. Any lag ≥ 0, any part lengths (shorter or longer than the lag), any buffer with at least `lag` cells. -/
@@ -38,7 +39,7 @@ theorem lagCore_append (lag : Nat) (ia ib lagged : List α) (za zb zab : List α
   obtain ⟨hlW, lW⟩ := lagCore_lagged lag (ia ++ ib) lagged zab hlen
   constructor
   · apply ext_getD
-    · rw [hoW, List.length_append, hoA, hoB, List.length_append]
+    · rw [hoW, List.length_append, List.length_append, hoA, hoB]
     · intro i hi
       rw [hoW] at hi
       rw [gW i hi, getD_append' (lagCore lag ia lagged za).outflow, hoA, getD_append' ia ib]
